@@ -393,6 +393,14 @@ func checkC19(p *core.Program, r *core.Report) {
 			continue
 		}
 		g := flow.NewGraph(c.Action)
+		g.NonNilError = func(fn *types.Func) bool {
+			if u, ok := ix.decls[fn.Origin()]; ok {
+				if fd, ok := u.Node.(*ast.FuncDecl); ok {
+					return flow.AlwaysReturnsFreshError(u.Pkg.TypesInfo, fd)
+				}
+			}
+			return false
+		}
 		loc, ok := g.Locate(at)
 		if !ok {
 			r.Undecided("O19.3", cn, p.Pos(at.Pos()), "mode assignment not found in the control-flow graph")
